@@ -186,8 +186,8 @@ func clip(s string) string {
 
 func main() {
 	mon.Main(mon.Spec{
-		Prop: "C14",
-		Rule: "case = history of 40 stores/loads/missing queries over a 48-byte window at bases {0,0x1000,2^32-24,2^63,2^64-64}, widths 1..16 (sometimes up to 255), constant and symbolic values whose width differs from the write width, a quarter of the stores re-writing an earlier value (same object or structural copy) at the same place, over exactly its tail/head remnant, shifted or elsewhere; after every operation Blocks() and random load/missing probes are compared with a shadow byte map on 6 valuations; non-trivial history = contains a successful load that reads a stored value only in part or spans >=2 stored values",
+		Prop:        "C14",
+		Rule:        "case = history of 40 stores/loads/missing queries over a 48-byte window at bases {0,0x1000,2^32-24,2^63,2^64-64}, widths 1..16 (sometimes up to 255), constant and symbolic values whose width differs from the write width, a quarter of the stores re-writing an earlier value (same object or structural copy) at the same place, over exactly its tail/head remnant, shifted or elsewhere; after every operation Blocks() and random load/missing probes are compared with a shadow byte map on 6 valuations; non-trivial history = contains a successful load that reads a stored value only in part or spans >=2 stored values",
 		Explanation: "oracle: shadow map address -> (stored value, byte index); load ok iff all bytes written, width exact, value equal under every valuation (refir big-int evaluation); Missing/Blocks compared as canonical interval lists; S-expression prints of every value handed in or returned, and expr.Zero/One, are re-checked at the end of each history",
 		Assumptions: []string{"refir reference evaluator", "addresses never wrap 2^64 (property's stated domain)"},
 		Cases: func(t string) int {
